@@ -768,6 +768,7 @@ def ad_filter_next(E, st, ptr, v, fid, item_ty=None):
                 continue
             it2 = E.load(s2, ip2)
             unpin(s2, ip2)
+            answer_check(E, s2, r, it2, 'find')
             yes, no = E.split_bool(s2, r, True)
             if yes is not None:
                 yes.log('found', E.tag_of(it2))
@@ -867,6 +868,38 @@ def _finish(results, pins):
             if p is not None:
                 unpin(r[1], p)
     return results
+
+
+def answer_check(E, s, r, item, what):
+    """ANSWER (roots that resolve several requested keys at once): while the requests handed in by the caller are
+    scanned for a stored key, a request may be declared (non-)matching only by the answer of the user's `==`;
+    a predicate that answers from anything else (a size pre-filter, a bit mask, a constant) silently skips a
+    request whose key is present"""
+    if not getattr(E, 'track_agree', False):
+        return
+    arrs = getattr(E, 'agree_arrays', ())
+    if not arrs:
+        return
+    try:
+        it = E.rtag(s, item)
+    except Exception:
+        return
+    if not any(E.tag_mentions(it, a) for a in arrs):
+        return
+    t = r[1] if (isinstance(r, tuple) and len(r) > 1 and r[0] == 'boolu') else None
+    while isinstance(t, tuple) and len(t) == 2 and t[0] == 'not':
+        t = t[1]
+    ok = isinstance(t, tuple) and bool(t) and t[0] == 'eq'
+    E.oblig('ANSWER', ok, what,
+            'the scan of the requested keys declares a request matching / not matching without that being the answer '
+            'of `==` between the request and the stored key (predicate result: %s): a present key can be reported '
+            'absent' % (short_r(r),), 'refuted', props=sorted(getattr(E, 'agree_props', None) or ()),
+            sample='predicate answers with %s' % (short_r(r),))
+
+
+def short_r(r):
+    s = str(r)
+    return s if len(s) < 160 else s[:160] + '...'
 
 
 @model([IT + 'find', "<core::slice::iter::Iter<'a, T> as core::iter::traits::iterator::Iterator>::find",
@@ -1068,6 +1101,7 @@ def m_position(E, st, fid, t, args, dest_ty):
             if kind == 'unwind':
                 out.append(('done', 'unwind', s2, None))
                 continue
+            answer_check(E, s2, r, item, 'position')
             yes, no = E.split_bool(s2, r, True)
             if yes is not None:
                 cur = E.load(yes, cnt)
@@ -1097,6 +1131,7 @@ def _any_all(is_any):
                 if kind == 'unwind':
                     out.append(('done', 'unwind', s2, None))
                     continue
+                answer_check(E, s2, r, item, 'any' if is_any else 'all')
                 yes, no = E.split_bool(s2, r, True)
                 if is_any:
                     if yes is not None:
